@@ -180,6 +180,14 @@ def failing_cases(tier, rng):
         "mixed-ops-empty": "    s = snapshot()\n    assert 1 <= s\n    assert 1 == s\n",
         "compare-in-except": "    try:\n        raise ValueError('v')\n    except ValueError as e:\n        assert str(e) == snapshot('w')\n        raise\n",
         "two-tests-one-raises": "    assert 1 == snapshot(2)\n\n\ndef test_b():\n    raise RuntimeError('x')\n\n\ndef test_c():\n    assert [1] == snapshot([2, 3])\n",
+        # well-behaved tests with several categories pending on the same container (an element that is both to be trimmed / deleted
+        # and written non-canonically must get one edit, not two overlapping ones)
+        "in-unused-noncanonical": "    assert 1 in snapshot([1, 0x10])\n",
+        "in-unused-noncanonical-first": "    assert 3 in snapshot([0x10, 0x3, 2])\n",
+        "le-noncanonical-slack": "    assert 1 <= snapshot(0x10)\n",
+        "getitem-unused-noncanonical": "    s = snapshot({'a': 0x1, 'b': 0x2})\n    assert s['a'] == 1\n",
+        "eq-list-delete-noncanonical": "    assert [1] == snapshot([0x1, 0x2])\n",
+        "eq-dict-delete-noncanonical": "    assert {'a': 1} == snapshot({'a': 0x1, 'b': 0x2})\n",
         "exception-in-value-repr": "    class R:\n        def __repr__(self):\n            raise ValueError('repr')\n        def __eq__(self, o):\n            return isinstance(o, R)\n    assert R() == snapshot()\n",
     }
     cases = []
